@@ -424,6 +424,8 @@ def main():
     declared_correspondence(chk, 60 if q else 400)
     standalone(chk, 14 if q else 150)
     shared_definition(chk)
+    from props.c15 import same_columns_two_orders
+    same_columns_two_orders(chk)
     reuse.analyze_after_mutation(chk, 4 if q else 24, "an entry differs from the metric analysed alone on the same data")
     chk.cov["rule"] = ("pairs: 1..5 variant ids (int/str/bool) x control present/absent/None x all_variants; "
                        "definitions: 1..6 metrics from {Mean, Mean+cov, ratio, ratio+cov, SampleRatio, Quantile, custom "
